@@ -26,12 +26,14 @@ OPEN_STATEMENTS = [
     'bk_exact / bk_majorana_exact / tree_exact are proved under the decidable hypothesis "exact regime" (no non-zero value deleted '
     'by the |v| < EQ_TOLERANCE test of +=), evaluated by the Model on every generated input (distribution key '
     'theorem-hypothesis exact-regime); the term-level theorems bk_term_exact / bk_majorana_term_exact / tree_term_exact are unconditional',
-    'srl_sound (_seeley_richard_love(i,j,c,n) denotes c a_i^dagger a_j under the encoding, cases 0-10): NOT proved; '
-    'only srl_cases_exhaustive (no pair i,j < n falls through the elif chain) is a theorem; soundness is covered by '
-    'exact correspondence for ALL i,j < n <= 14/24 (case histogram in the evidence) and the Spec oracle for n <= 8',
-    'bk_interaction_sound (the InteractionOperator path, cases A-D, equals the FermionOperator path, also for '
-    'n_qubits above the tensor size): NOT proved; correspondence + Spec oracle against the tensor formula + exact '
-    'comparison with bravyi_kitaev(get_fermion_operator(.), n_qubits)',
+    'srl_sound / srl_sound_case_0 .. srl_sound_case_10 (every branch of _seeley_richard_love denotes c a_i^dagger a_j under the '
+    'encoding, all n, all i,j < n) ARE theorems, under the decidable exact-regime hypothesis srlOk (no tolerance deletion in '
+    '_qubit_operator_creation), evaluated by the driver on every generated (i, j, c, n)',
+    'bk_interaction_sound / bk_interaction_support / bk_interaction_matches_fermion_path (the InteractionOperator path, '
+    'cases A-D, denotes the tensor formula under the encoding for every tensor size N and every n_qubits >= N, for every '
+    'tensor pair denoting a Hermitian operator, element-wise Hermitian storage not required) ARE theorems, under the decidable '
+    'exact-regime hypothesis bkInteractionOpOk (every += and every _qubit_operator_creation deleted only exact zeros), '
+    'evaluated by the driver on every generated tensor',
     'isospectrality with Jordan-Wigner / preservation of expectation values are not restated: they follow from bk_exact / '
     'tree_exact + injectivity of enc (the transformed operator is JW conjugated by the relabelling enc); CAR, diagonal '
     'number operators and the vacuum ARE theorems (bk_car, bk_car_ann, bk_number_diagonal, bk_vacuum, tree_car)',
@@ -244,7 +246,7 @@ def stream_srl(ctx):
                       {'op': 'c05.srl', 'i': i, 'j': j, 'coef': to_gq(c), 'n': n},
                       oracle('bk', 'fermion', n, ['one_body_term', i, j, to_gq(c)], jQ)
                       if (n <= 8 or (n <= NO and i % 2 == 1 and j % 2 == 1 and i != j)) else None,
-                      cmp=cmp_srl)
+                      cmp=cmp_srl, regime_req={'op': 'c05.srl_ok', 'i': i, 'j': j, 'coef': to_gq(c), 'n': n})
         if len(b.items) > 3000:
             b.flush()
     b.flush()
@@ -382,7 +384,8 @@ def stream_interaction(ctx):
         jQ = enc_op('qubit', Q.terms)
         b.add('bravyi_kitaev(InteractionOperator)', case, jQ,
               {'op': 'c05.iop', 'N': N, 'n': n, 'constant': const, 'one': one, 'two': two},
-              oracle('bk', 'fermion', n, ['iop', N, const, one, two], jQ) if n <= 8 else None)
+              oracle('bk', 'fermion', n, ['iop', N, const, one, two], jQ) if n <= 8 else None,
+              regime_req={'op': 'c05.iop_ok', 'N': N, 'n': n, 'constant': const, 'one': one, 'two': two})
         ok, QF = call(st, 'bravyi_kitaev(get_fermion_operator(iop))', case,
                       lambda: of.transforms.bravyi_kitaev(of.transforms.get_fermion_operator(iop), n))
         if ok and canon_nz(jQ) != canon_nz(enc_op('qubit', QF.terms)):
@@ -455,7 +458,9 @@ def stream_interaction(ctx):
         jQ = enc_op('qubit', Q.terms)
         b.add('bravyi_kitaev(InteractionOperator) quartic', case, jQ,
               {'op': 'c05.iop', 'N': N, 'n': nq, 'constant': to_gq(iop.constant), 'one': flat(one), 'two': flat(two)},
-              oracle('bk', 'fermion', nq, ['op', A], jQ) if nq <= 10 else None)
+              oracle('bk', 'fermion', nq, ['op', A], jQ) if nq <= 10 else None,
+              regime_req={'op': 'c05.iop_ok', 'N': N, 'n': nq, 'constant': to_gq(iop.constant), 'one': flat(one),
+                          'two': flat(two)})
         ok, QF = call(st, 'bravyi_kitaev(get_fermion_operator(iop))', case,
                       lambda: of.transforms.bravyi_kitaev(of.transforms.get_fermion_operator(iop), nq))
         if ok and canon_nz(jQ) != canon_nz(enc_op('qubit', QF.terms)):
